@@ -17,6 +17,7 @@ import (
 	"google.golang.org/grpc/status"
 
 	"github.com/openfga/openfga/internal/check"
+	"github.com/openfga/openfga/internal/graph"
 	"github.com/openfga/openfga/internal/modelgraph"
 	"github.com/openfga/openfga/internal/telemetry"
 	"github.com/openfga/openfga/internal/validation"
@@ -26,6 +27,7 @@ import (
 	"github.com/openfga/openfga/pkg/storage"
 	"github.com/openfga/openfga/pkg/storage/memory"
 	"github.com/openfga/openfga/pkg/tuple"
+	"github.com/openfga/openfga/pkg/typesystem"
 )
 
 // ---------------------------------------------------------------------------------------------
@@ -247,13 +249,16 @@ func (sv *srvInst) check(ctx context.Context, t target, q checkQ, ct []scen.Tupl
 		TupleKey:         &openfgav1.CheckRequestTupleKey{Object: q.Obj, Relation: q.Rel, User: q.User},
 		ContextualTuples: ctxKeys(ct), Context: scen.Struct(t.env.S.ReqCtx), Consistency: t.cons(),
 	})
+	out := "F"
 	if err != nil {
-		return errClass(err)
+		out = errClass(err)
+	} else if resp.GetAllowed() {
+		out = "T"
 	}
-	if resp.GetAllowed() {
-		return "T"
+	if os.Getenv("C04_DEBUG") != "" {
+		fmt.Fprintf(os.Stderr, "CHECK %s store=%s %v ctx=%d hc=%v -> %s\n", sv.name, t.env.StoreID[20:], q, len(ct), t.hc, out)
 	}
-	return "F"
+	return out
 }
 
 type batchItem struct {
@@ -343,6 +348,9 @@ func (sv *srvInst) listUsers(ctx context.Context, t target, q luQ, ct []scen.Tup
 		us = append(us, userString(u))
 	}
 	sort.Strings(us)
+	if os.Getenv("C04_DEBUG") != "" {
+		fmt.Fprintf(os.Stderr, "LU %s store=%s %v ctx=%d hc=%v -> %v\n", sv.name, t.env.StoreID[20:], q, len(ct), t.hc, us)
+	}
 	return "[" + strings.Join(us, " ") + "]"
 }
 
@@ -426,6 +434,7 @@ type probe struct {
 	ask   func(ctx context.Context, t target, ct []scen.Tuple) string
 	// the Check atoms a mismatch implicates (for the classification by the oracle)
 	atoms func(got, want string) []checkQ
+	lu    *luQ // the ListUsers request, for the attribution through the ListUsers algorithm model
 }
 
 type mismatch struct {
@@ -437,6 +446,7 @@ type mismatch struct {
 	Contextual                  []string
 	atoms                       []checkQ
 	ctxIdx                      []int
+	lu                          *luQ
 }
 
 func splitList(s string) []string {
@@ -694,7 +704,7 @@ func runAPICase(ctx context.Context, w *rec.Writer, fm *farm, s *scen.Scenario, 
 	}
 	for _, q := range lus {
 		q := q
-		probes = append(probes, probe{api: "listusers", srv: plain, label: fmt.Sprintf("ListUsers(%s#%s,%s#%s)", q.Obj, q.Rel, q.FType, q.FRel),
+		probes = append(probes, probe{api: "listusers", srv: plain, lu: &q, label: fmt.Sprintf("ListUsers(%s#%s,%s#%s)", q.Obj, q.Rel, q.FType, q.FRel),
 			ask: func(ctx context.Context, t target, ct []scen.Tuple) string { return plain.listUsers(ctx, t, q, ct) },
 			atoms: func(got, want string) []checkQ {
 				var d []string
@@ -813,7 +823,7 @@ func runAPICase(ctx context.Context, w *rec.Writer, fm *farm, s *scen.Scenario, 
 			cts = append(cts, t.Key()+condSuffix(t))
 		}
 		mms = append(mms, mismatch{API: p.api, Server: p.srv.name, Request: p.label, Phase: phase, Store: i, Level: j,
-			Got: got, Want: want, GotFresh: gf, WantFresh: wf, Kind: kind, Contextual: cts, atoms: p.atoms(got, want),
+			Got: got, Want: want, GotFresh: gf, WantFresh: wf, Kind: kind, Contextual: cts, atoms: p.atoms(got, want), lu: p.lu,
 			ctxIdx: append([]int{}, perm[cuts[i]:cuts[j]]...)})
 	}
 
@@ -908,7 +918,7 @@ func runAPICase(ctx context.Context, w *rec.Writer, fm *farm, s *scen.Scenario, 
 		eng := map[string]int{"plain": 0, "opt": 1, "wg": 2}[m.Server]
 		kind := map[string]int{"semantic": 0, "cached": 1, "unstable": 2}[m.Kind]
 		mvs = append(mvs, rec.L(rec.I(mi), rec.I(api), rec.I(eng), rec.I(kind), rec.I(outcomeInt(m.Got)), rec.I(outcomeInt(m.Want)),
-			rec.LI(m.ctxIdx), rec.L(avs...)))
+			rec.LI(m.ctxIdx), rec.L(avs...), luRecord(in, full, m)))
 	}
 	d := map[string]any{"kind": "api", "seed": seed, "scenario": s, "text": s.String(), "cuts": cuts, "perm": perm}
 	if len(wgRejects) > 0 {
@@ -966,4 +976,43 @@ func outcomeInt(s string) int {
 	default:
 		return 9 // a list / a tree
 	}
+}
+
+// the ListUsers request of a mismatch and both answers, for the ListUsers algorithm model
+// (Query/ListUsers.v): ( ftype frel edges ot oi rel got want ), an answer = ( 0 subject ... ) | ( 1 )
+// for an error; edges replicates listusers.doesHavePossibleEdges (0 = no edge: the answer is empty
+// without a traversal).
+func luRecord(in *scen.Intern, env *scen.Env, m mismatch) rec.V {
+	if m.lu == nil {
+		return rec.L()
+	}
+	q := *m.lu
+	ot, _ := scen.SplitObj(q.Obj)
+	edges := 1
+	if !(ot == q.FType && q.Rel == q.FRel) {
+		g := graph.New(env.TS)
+		es, err := g.GetPrunedRelationshipEdges(typesystem.DirectRelationReference(ot, q.Rel), typesystem.DirectRelationReference(q.FType, q.FRel))
+		switch {
+		case err != nil:
+			edges = 2
+		case len(es) == 0:
+			edges = 0
+		}
+	}
+	ans := func(a string) rec.V {
+		if isErr(a) {
+			return rec.L(rec.I(1))
+		}
+		vs := []rec.V{rec.I(0)}
+		for _, u := range splitList(a) {
+			vs = append(vs, in.Subject(u))
+		}
+		return rec.L(vs...)
+	}
+	frel := 0
+	if q.FRel != "" {
+		frel = in.R(q.FRel)
+	}
+	a, b := in.Obj(q.Obj)
+	return rec.L(rec.I(in.T(q.FType)), rec.I(frel), rec.I(edges), a, b, rec.I(in.R(q.Rel)), ans(m.Got), ans(m.Want))
 }
